@@ -479,6 +479,14 @@ def items(tier: str, seed: int) -> list[tuple[Any, ...]]:
                 for n in (2, 3, 5):
                     out.append((("P" + "T" * j) * n + "R", "", mr, False, False, timeout))
                     out.append((("P" + "T" * j) * n + "T" * (lim + 1) + "R", "", mr, False, False, timeout))
+    # budgets are per transmission: a retried attempt starts with fresh pending / silence counters
+    for timeout in (2.0,):
+        lim = int(max(timeout, 20.0) / POLL)
+        for mr in (1, 2):
+            for sep in ("C", "E", "T" * lim):
+                out.append(("P" * 70 + sep + "P" * 70 + "R", "", mr, False, False, timeout))
+                out.append(("P" + "T" * (lim - 1) + "P" * 3 + sep + "P" + "T" * (lim - 1) + "N", "", mr, False, False, timeout))
+                out.append(("P" + "T" * lim + "PTR" if sep.startswith("T") else "P" + sep + "P" + "T" * (lim - 1) + "R", "", mr, True, False, timeout))
     return out
 
 
